@@ -92,12 +92,17 @@ def one_case(ctx, d, steps, regmap, memmap, dflt, iter_seed, label, simcls=None,
                 ctx.violation('mem-content', 'memory %d addr %d holds %d, spec %d' % (mid, a, rv, v),
                               dict(replay, mismatch={'mem': mid, 'addr': a, 'real': rv, 'spec': v}))
                 break
-    # tie: the impl model driven by the very order the simulator used
-    if check_tie and simcls is pyrtl.Simulation and real['sim'] is not None:
+    # tie: the impl model driven by the very order the simulator used (FastSimulation does not keep its order:
+    # any dependency order gives the same values, `pysim_order_independent`)
+    if check_tie and simcls in (pyrtl.Simulation, pyrtl.FastSimulation) and real['sim'] is not None:
         sim = real['sim']
-        pys = ctx.driver.ask(simrun.lean_request(ser, steps, regmap, memmap, dflt, model='pysim',
-                                                 order=list(sim.ordered_nets),
-                                                 wrorder=list(sim.mem_update_nets), memq=memq))
+        if simcls is pyrtl.Simulation:
+            pys = ctx.driver.ask(simrun.lean_request(ser, steps, regmap, memmap, dflt, model='pysim',
+                                                     order=list(sim.ordered_nets),
+                                                     wrorder=list(sim.mem_update_nets), memq=memq))
+        else:
+            pys = ctx.driver.ask(simrun.lean_request(ser, steps, regmap, memmap, dflt, model='fastsim',
+                                                     order=[n_ for n_ in d.block if n_.op not in 'r@'], memq=memq))
         if not pys.get('ok'):
             ok = False
             if pys.get('err') in ('order-not-topological', 'order-not-a-permutation'):
